@@ -154,12 +154,17 @@ func main() {
 				off = all[r2.IntN(len(all))]
 			case x == 3:
 				off = []ebu.Offset{ebu.OffsetOldest, "0"}[r2.IntN(2)] // rewound to the very start
+			case x == 4:
+				off = ebu.OffsetNewest // "from now on": a store may refuse to keep it, but not keep something else
 			case x == 2:
 				n, _ := strconv.Atoi(string(last))
 				off = ebu.Offset(strconv.Itoa(n + 1 + r2.IntN(60)))
 			}
 			fmt.Fprintf(ack, "I %d %s %s\n", i, sub, off) // intent, logged before the call
 			if err := st.SaveOffset(ctx, sub, off); err != nil {
+				if off == ebu.OffsetNewest {
+					continue // refused: nothing was acknowledged
+				}
 				fmt.Fprintln(os.Stderr, "save:", err)
 				os.Exit(5)
 			}
